@@ -422,3 +422,16 @@ PROPS['C14']['claim'] += (' Discharged deductively: TableB.lookup / TableD.looku
                           'of class UndefinedElementDescriptor / UndefinedSequenceDescriptor carrying the id otherwise (never None, never another entry); the '
                           'composite descriptors of the walker (an undefined replication factor raises UnknownDescriptor); frame obligations on the table lookups.')
 PROPS['C01']['claim'] += (' Labels: Descriptor.__str__ is the id as six digits, AssociatedDescriptor / SkippedLocalDescriptor print A / S + five digits.')
+
+
+MIXED = ('contract-based deductive verification: sidecar contracts on the real functions, VCs generated from the AST (PyVC), discharged by z3/cvc5, plus '
+         'frame obligations decided on the AST; only PART of the mechanism is under contract -- the property as a whole is decided by the bounded '
+         'stand-in (run-time comparison with an independent reference / oracle on generated and corpus inputs), labelled bounded, not counted as proved')
+for _p, _what in (('C11', 'Decoder.process (span of the message bytes, start signature) and the frame of the metadata querent are discharged; generate_bufr_message '
+                          '(a generator function) is bounded only.'),
+                  ('C13', 'Frame obligations (AST) for the configuration transformers, table lookups, Decoder.process and the metadata querent are discharged; '
+                          'history independence as a whole is sampled by the bounded layer.'),
+                  ('C14', 'TableB / TableD lookups (Undefined* placeholder for an unknown id), the composite descriptors of the walker and the frame of the table '
+                          'lookups are discharged; builder, flattening and the Table D expansion are bounded (exhaustive over the bundled tables in thorough).')):
+    PROPS[_p]['technique'] = MIXED
+    PROPS[_p]['note'] = _what + ' ' + PROPS[_p].get('note', '')
